@@ -595,6 +595,15 @@ def run_check(prop, tier, seed, replay):
     broken += geneq['broken']
     for b in geneq['broken']:
         log('BROKEN OBLIGATION ' + b)
+    # panic-site inventory (fragment key "panic_inventory", docs/RS2V.md): a new panic site in a watched file
+    # is a broken obligation; the counts go into the evidence
+    psites = rs2v.check_panic_sites(prop)
+    if psites:
+        obligations += psites['obligations']
+        discharged += psites['obligations']
+        broken += psites['broken']
+        for b in psites['broken']:
+            log('BROKEN OBLIGATION ' + b)
     driver = build_driver()
 
     if replay:
@@ -795,6 +804,7 @@ def run_check(prop, tier, seed, replay):
             'geneq': {'files': geneq['files'], 'lemmas': geneq['lemmas'], 'discharged': len(geneq['discharged']),
                       'broken': geneq['broken'], 'kernels_regenerated': sum(1 for k in gen_status if k['ok']),
                       'kernels_failed': geneq['kernels_failed']},
+            'panic_sites': psites['summary'] if psites else None,
             'checker_cmd': 'make -C coq ' + ' '.join(f[:-2] + '.vo' for f in prop['coq_files']) + ' && coqc work/Assumptions_%s.v' % pid,
             'trusted_base': trusted,
             'theorems': [n for _, n, _ in thms],
